@@ -138,7 +138,8 @@ fn p_c15() -> Profile {
     let mut p = Profile::base("C15");
     p.len = (15, 50);
     p.w_config = 5;
-    p.w_resume = 4;
+    p.w_resume = 6;
+    p.w_breaker = 2;
     p
 }
 fn nt_c15(s: &Stats) -> bool {
